@@ -79,3 +79,12 @@ claim("C08", "model_checking",
       "failures are judged with a backtracking layout search and a reference first-fit (completeness clause).",
       "Canonical identifier order; condition values {0,1}; hierarchies the implementation's tree can express.",
       "DESIGN.md section 4, C08")
+claim("C07", "exploration",
+      "The real MachineController reads/writes a simulated machine (position-dependent memory pattern, byte-array model of every chip): "
+      "buffer sizes {4,5,6,7,8,12,16,256} x window {1,2,3,8} x address mod 4 at two bases x every length 0..3*buffer+3 x chips/cores; every "
+      "field of the sv and vcpu structs (read and write); fills; link reads/writes on all six links; and every datagram-fate sequence "
+      "(request lost, reply lost, duplicated, slow) with <=1 (thorough 2) deviations on the buffer-8/window-3 slice. After every operation "
+      "the returned bytes, the whole memory of every chip and the machine's protocol monitor (buffer size, access-type alignment, "
+      "announced vs carried length) are checked.",
+      "SimMachine encodes the SCP memory commands as described by the controller's docstrings (trusted base); _window_size set directly.",
+      "DESIGN.md section 4, C07")
